@@ -339,6 +339,14 @@ impl World {
                     self.drop_root(idx);
                 }
             }
+            M::AllocCyclic => {
+                if ctx == ScriptCtx::Clo {
+                    return;
+                }
+                let kind = a[0].rem_euclid(STORE_KINDS.len() as i64) as u16;
+                self.create_node_cyclic(&NodeTmpl { store: kind, fin: vec![], drop: vec![] }, &vec![Mini::new(MiniCode::SelfWeak, &[])]);
+                self.stats.borrow_mut().bump("callback_allocated");
+            }
             M::Collect => self.collect(),
             M::TryUnwrapRoot => {
                 if let Some(i) = self.resolve_root(a[0], |_, _| true) {
@@ -372,6 +380,36 @@ impl World {
                 }
                 if let Some(i) = self.resolve_root(a[0], |_, _| true) {
                     self.mark_alive_root(i);
+                }
+            }
+            M::SelfWeakToSlot | M::WeakToSlot => {
+                // resurrection into storage owned by the object itself: the cycle so created is unreachable again
+                if ctx != ScriptCtx::Fin {
+                    return;
+                }
+                let Some(n) = node else { return };
+                let id = n.head.id;
+                let found: Option<(*const AnyWeak, Option<ObjId>, i64)> = if mini.code == M::SelfWeakToSlot {
+                    match n.self_weak.try_borrow() {
+                        Ok(sw) => sw.as_ref().map(|w| (w as *const AnyWeak, Some(id), a[0])),
+                        Err(_) => None,
+                    }
+                } else {
+                    match n.weaks.try_borrow() {
+                        Ok(ws) if !ws.is_empty() => {
+                            let i = a[0].rem_euclid(ws.len() as i64) as usize;
+                            let t = self.m.borrow().objs[id as usize].stored_weaks.get(i).copied();
+                            t.map(|t| (&ws[i] as *const AnyWeak, t, a[1]))
+                        }
+                        _ => None,
+                    }
+                };
+                if let Some((p, t, slot)) = found {
+                    if let Some(idx) = self.upgrade_weak(p, t, true) {
+                        let (cc, o) = self.take_root(idx);
+                        self.stats.borrow_mut().bump("finalizer_resurrected_into_own_field");
+                        self.set_slot_of_node(n, id, slot, cc, o);
+                    }
                 }
             }
             M::SaveWeak | M::SelfWeak | M::TryUpgrade | M::CloneRootToSlot => {} // closure-only, handled by run_closure_script
